@@ -755,7 +755,9 @@ fn gen_value(src: &mut Src, depth: usize) -> V {
 }
 const NAMES: &[&str] = &["PING", "ECHO", "SET", "GET", "APPEND", "STRLEN", "INCR", "LPUSH", "RPUSH", "LRANGE", "DEL", "EXISTS", "MGET", "TYPE", "HSET", "HGET", "NOSUCH", "get", "LLEN", "SADD", "SCARD",
     // commands whose argument parser quotes a bad option or subcommand back in its error text
-    "EXPIRE", "SCAN", "SCRIPT", "ACL", "ZRANGEBYSCORE", "OBJECT", "CONFIG", "CLIENT", "ZADD", "LMOVE", "GETEX"];
+    "EXPIRE", "SCAN", "SCRIPT", "ACL", "ZRANGEBYSCORE", "OBJECT", "CONFIG", "CLIENT", "ZADD", "LMOVE", "GETEX",
+    // a script hands client bytes back as a status line, an error line or a bulk
+    "EVAL"];
 /// A command as an array of bulk strings: mostly well-formed, sometimes wrong arity, sometimes a
 /// name or argument made of client-chosen bytes (CR, LF, quotes, non-UTF-8).
 fn gen_command(src: &mut Src) -> Vec<Vec<u8>> {
@@ -782,6 +784,7 @@ fn gen_command(src: &mut Src) -> Vec<Vec<u8>> {
         "ZRANGEBYSCORE" => vec![key(src), b"0".to_vec(), b"1".to_vec(), if src.below(2) == 0 { hostile[src.idx(hostile.len())].to_vec() } else { b"WITHSCORES".to_vec() }],
         "ZADD" => vec![key(src), if src.below(2) == 0 { hostile[src.idx(hostile.len())].to_vec() } else { b"NX".to_vec() }, b"1".to_vec(), b"m".to_vec()],
         "LMOVE" => vec![key(src), key(src), if src.below(2) == 0 { hostile[src.idx(hostile.len())].to_vec() } else { b"LEFT".to_vec() }, b"RIGHT".to_vec()],
+        "EVAL" => { let script: &[u8] = [&b"return {ok=ARGV[1]}"[..], &b"return redis.status_reply(ARGV[1])"[..], &b"return {err=ARGV[1]}"[..], &b"return ARGV[1]"[..], &b"return {ARGV[1], {ok=ARGV[1]}}"[..]][src.idx(5)]; vec![script.to_vec(), b"0".to_vec(), if src.below(3) > 0 { hostile[src.idx(hostile.len())].to_vec() } else { val(src) }] }
         "GETEX" => vec![key(src), if src.below(2) == 0 { hostile[src.idx(hostile.len())].to_vec() } else { b"PERSIST".to_vec() }],
         _ => if src.below(2) == 1 { vec![val(src)] } else { vec![] },
     };
